@@ -2,6 +2,8 @@ package harness
 
 import (
 	"bytes"
+	"crypto/sha256"
+	"encoding/hex"
 	"encoding/json"
 	"errors"
 	"fmt"
@@ -19,6 +21,8 @@ import (
 	"github.com/gammazero/nexus/v3/router/auth"
 	"github.com/gammazero/nexus/v3/transport"
 	"github.com/gammazero/nexus/v3/wamp"
+	"github.com/gammazero/nexus/v3/wamp/crsign"
+	"golang.org/x/crypto/nacl/sign"
 )
 
 func realmName(i int) wamp.URI { return wamp.URI("verif.realm" + strconv.Itoa(i)) }
@@ -32,7 +36,24 @@ func (k *keyStore) AuthKey(authid, authmethod string) ([]byte, error) {
 	if _, ok := k.users[authid]; !ok {
 		return nil, errors.New("no such user")
 	}
+	switch authmethod {
+	case "wampcra":
+		return []byte("cra-" + authid), nil
+	case "cryptosign":
+		pub, _ := signKeys(authid)
+		return pub[:], nil
+	}
 	return []byte("tkt-" + authid), nil
+}
+
+// signKeys derives the cryptosign key pair of a user deterministically.
+func signKeys(authid string) (*[32]byte, *[64]byte) {
+	seed := sha256.Sum256([]byte("verif-cryptosign-" + authid))
+	pub, priv, err := sign.GenerateKey(bytes.NewReader(seed[:]))
+	if err != nil {
+		panic(err)
+	}
+	return pub, priv
 }
 func (k *keyStore) PasswordInfo(string) (string, int, int) { return "", 0, 0 }
 func (k *keyStore) AuthRole(authid string) (string, error) {
@@ -85,6 +106,12 @@ type peer struct {
 	realm   int
 	local   bool
 	gone    bool // the router closed the transport
+	welcomed  bool   // a WELCOME was received
+	silent    bool   // handshake peer that never sends anything
+	hs        bool   // attached by a handshake step (hello)
+	deaf      bool   // hung up during the handshake: nothing is observed any more
+	challenge string // the challenge the router issued to this peer
+	chMethod  string
 }
 
 type canon struct {
@@ -241,13 +268,27 @@ func (x *Exec) realmConfig(rc *realmCtx) *router.RealmConfig {
 	for _, u := range rc.cfg.Users {
 		users[u.ID] = u.Role
 	}
+	ac := normCfg(rc.cfg).Auth
+	tmo := time.Duration(ac.Crtmo) * time.Millisecond
+	var auths []auth.Authenticator
+	for _, m := range ac.Methods {
+		switch m {
+		case "ticket":
+			auths = append(auths, auth.NewTicketAuthenticator(&keyStore{users}, tmo))
+		case "wampcra":
+			auths = append(auths, auth.NewCRAuthenticator(&keyStore{users}, tmo))
+		case "cryptosign":
+			auths = append(auths, auth.NewCryptoSignAuthenticator(&keyStore{users}, tmo))
+		}
+	}
 	c := &router.RealmConfig{
 		URI:               rc.uri,
 		StrictURI:         rc.cfg.Strict,
-		AnonymousAuth:     true,
+		AnonymousAuth:     ac.Anon,
 		AllowDisclose:     rc.cfg.Disclose,
 		EnableMetaKill:    rc.cfg.Metakill,
-		Authenticators:    []auth.Authenticator{auth.NewTicketAuthenticator(&keyStore{users}, 0)},
+		Authenticators:    auths,
+		RequireLocalAuth:  ac.Lauth,
 		RequireLocalAuthz: rc.cfg.Lauthz,
 	}
 	if len(rc.cfg.Authz) != 0 {
@@ -282,6 +323,13 @@ func normCfg(c Cfg) Cfg {
 	}
 	if c.Authz == nil {
 		c.Authz = []Rule{}
+	}
+	if c.Auth.Crtmo == 0 {
+		// the configuration of the routing scenarios: anonymous and ticket authentication
+		c.Auth = AuthCfg{Anon: true, Methods: []string{"ticket"}, Lauth: false, Crtmo: 60000}
+	}
+	if c.Auth.Methods == nil {
+		c.Auth.Methods = []string{}
 	}
 	return c
 }
@@ -354,6 +402,12 @@ func normInput(in Input) Input {
 	}
 	if in.F.Topic == nil {
 		in.F.Topic = []string{}
+	}
+	if in.Hello.Methods == nil {
+		in.Hello.Methods = []string{}
+	}
+	if in.Hello.Feats == nil {
+		in.Hello.Feats = []string{}
 	}
 	return in
 }
@@ -502,6 +556,86 @@ func helloDetails(j Join) wamp.Dict {
 	return d
 }
 
+// helloMsg builds the HELLO of a handshake step.
+func (x *Exec) helloMsg(h Hello) *wamp.Hello {
+	d := helloDetails(Join{Authid: h.Authid, Color: h.Color, Feats: h.Feats, Local: true})
+	if h.Authid == "" {
+		delete(d, "authid")
+	}
+	switch h.Roles {
+	case "none":
+		delete(d, "roles")
+	case "unknown":
+		d["roles"] = wamp.Dict{"spectator": wamp.Dict{"features": wamp.Dict{}}}
+	case "badtype":
+		d["roles"] = "publisher"
+	}
+	if len(h.Methods) != 0 {
+		l := wamp.List{}
+		for _, m := range h.Methods {
+			if m == "#" {
+				l = append(l, 5)
+			} else {
+				l = append(l, m)
+			}
+		}
+		d["authmethods"] = l
+	}
+	if h.Smuggle {
+		d["authrole"] = "smuggled-role"
+		d["authprovider"] = "smuggled-provider"
+		d["authmethod"] = "smuggled-method"
+		d["session"] = 4242
+		d["authextra"] = wamp.Dict{"authrole": "smuggled-role"}
+	}
+	realm := x.uri
+	switch h.Realm {
+	case "missing":
+		realm = "verif.nosuchrealm"
+	case "empty":
+		realm = ""
+	}
+	return &wamp.Hello{Realm: realm, Details: d}
+}
+
+// authMsg concretises an abstract response: real HMAC / ed25519 signatures over
+// the challenge strings the router really issued, tickets as configured.
+func (x *Exec) authMsg(p *peer, in Input) wamp.Message {
+	r := in.Resp
+	switch r.Kind {
+	case "garbage":
+		return &wamp.Authenticate{Signature: "garbage!!", Extra: wamp.Dict{}}
+	case "other":
+		a, kw := payload("notauth")
+		return &wamp.Publish{Request: 1, Options: wamp.Dict{"acknowledge": true}, Topic: "a.b", Arguments: a, ArgumentsKw: kw}
+	}
+	chal := p.challenge
+	if r.Ch != "" && r.Ch != p.name {
+		chal = ""
+		if q := x.peers[r.Ch]; q != nil && q.chMethod == p.chMethod {
+			chal = q.challenge
+		}
+	}
+	sig := ""
+	switch p.chMethod {
+	case "ticket":
+		sig = "tkt-" + r.Key
+	case "wampcra":
+		if chal == "" {
+			chal = "no challenge"
+		}
+		sig = crsign.SignChallenge(chal, []byte("cra-"+r.Key))
+	case "cryptosign":
+		msg, err := hex.DecodeString(chal)
+		if err != nil || len(msg) != 32 {
+			msg = make([]byte, 32)
+		}
+		_, priv := signKeys(r.Key)
+		sig = hex.EncodeToString(sign.Sign(nil, msg, priv))
+	}
+	return &wamp.Authenticate{Signature: sig, Extra: wamp.Dict{}}
+}
+
 // ---------------------------------------------------------------------------
 // steps
 
@@ -611,6 +745,50 @@ func (x *Exec) step(sc *Scenario, in Input) {
 			p.send(&wamp.Authenticate{Signature: "tkt-" + in.Join.Authid, Extra: wamp.Dict{}})
 		}
 		p.joined = true
+	case "hello":
+		if p != nil {
+			skip()
+			return
+		}
+		h := in.Hello
+		p = x.newPeer(in.S, Join{Authid: h.Authid, Color: h.Color, Feats: h.Feats, Local: h.Local, Q: h.Q})
+		p.hs = true
+		switch h.First {
+		case "HELLO":
+			p.send(x.helloMsg(h))
+		case "none":
+			p.silent = true
+		case "AUTHENTICATE":
+			p.send(&wamp.Authenticate{Signature: "tkt-" + h.Authid, Extra: wamp.Dict{}})
+		default:
+			// some other message, towards a topic observers are subscribed to
+			a, kw := payload("first")
+			p.send(&wamp.Publish{Request: 1, Options: wamp.Dict{"acknowledge": true}, Topic: "a.b", Arguments: a, ArgumentsKw: kw})
+		}
+	case "auth":
+		if p == nil || !p.hs || p.welcomed || p.gone || p.dropped {
+			skip()
+			return
+		}
+		p.send(x.authMsg(p, in))
+	case "hsdrop":
+		if p == nil || !p.hs || p.welcomed || p.gone || p.dropped {
+			skip()
+			return
+		}
+		synctest.Wait()
+		p.drop()
+		p.deaf = true // what the router still writes to a peer that hung up is not observable
+	case "intrude":
+		if p == nil || !p.hs || p.welcomed || p.dropped {
+			skip()
+			return
+		}
+		// a peer that was turned away keeps talking
+		a, kw := payload(in.Tag)
+		p.send(&wamp.Subscribe{Request: req, Options: wamp.Dict{"match": "prefix"}, Topic: "a"})
+		p.send(&wamp.Publish{Request: req + 1, Options: wamp.Dict{"acknowledge": true}, Topic: "a.b", Arguments: a, ArgumentsKw: kw})
+		p.send(&wamp.Call{Request: req + 2, Options: wamp.Dict{}, Procedure: "wamp.session.count"})
 	case "subscribe":
 		if !live {
 			skip()
@@ -1005,7 +1183,11 @@ func (x *Exec) identPairs(d wamp.Dict, keys ...string) [][2]string {
 	var out [][2]string
 	for _, k := range keys {
 		if v, ok := d[k]; ok {
-			out = append(out, [2]string{k, str(v)})
+			sv := str(v)
+			if k == "authid" && x.randomAuthid(sv) {
+				sv = "RANDOM" // an id the router made up
+			}
+			out = append(out, [2]string{k, sv})
 		}
 	}
 	if tr, ok := wamp.AsDict(d["transport"]); ok && tr != nil {
@@ -1014,6 +1196,25 @@ func (x *Exec) identPairs(d wamp.Dict, keys ...string) [][2]string {
 		}
 	}
 	return sortPairs(out)
+}
+
+// randomAuthid tells whether an authid is one the router generated (hex of a
+// random id) rather than a name any scenario uses.
+func (x *Exec) randomAuthid(s string) bool {
+	if s == "" || len(s) > 14 {
+		return false
+	}
+	for _, u := range x.cfg.Users {
+		if u.ID == s {
+			return false
+		}
+	}
+	for _, c := range s {
+		if !(c >= '0' && c <= '9') && !(c >= 'a' && c <= 'f') {
+			return false
+		}
+	}
+	return true // no name used by any scenario consists of hex digits only
 }
 
 func (x *Exec) sessID(v any) int {
@@ -1030,6 +1231,7 @@ func (x *Exec) abstract(p *peer, s stamped) Msg {
 	}
 	switch m := s.m.(type) {
 	case *wamp.Welcome:
+		p.welcomed = true
 		r := blank("WELCOME", s.t)
 		r.A = x.sessC.of(x.chk(m.ID))
 		r.D = x.identPairs(m.Details, "authid", "authrole", "authmethod", "authprovider")
@@ -1037,6 +1239,9 @@ func (x *Exec) abstract(p *peer, s stamped) Msg {
 	case *wamp.Abort:
 		r := blank("ABORT", s.t)
 		r.E = string(m.Reason)
+		if p.hs && !p.welcomed {
+			r.E = "" // the reason given to a peer that is turned away is not part of any property
+		}
 		return r
 	case *wamp.Goodbye:
 		r := blank("GOODBYE", s.t)
@@ -1045,6 +1250,8 @@ func (x *Exec) abstract(p *peer, s stamped) Msg {
 	case *wamp.Challenge:
 		r := blank("CHALLENGE", s.t)
 		r.E = m.AuthMethod
+		p.chMethod = m.AuthMethod
+		p.challenge, _ = wamp.AsString(m.Extra["challenge"])
 		return r
 	case *wamp.Subscribed:
 		r := blank("SUBSCRIBED", s.t)
@@ -1211,7 +1418,11 @@ func (x *Exec) abstractEvent(p *peer, m *wamp.Event, t int) Msg {
 		}
 	case "wamp.session.on_leave":
 		r.X = x.sessID(arg(0))
-		r.Pd = sortPairs([][2]string{{"authid", str(arg(1))}, {"authrole", str(arg(2))}})
+		aid := str(arg(1))
+		if x.randomAuthid(aid) {
+			aid = "RANDOM"
+		}
+		r.Pd = sortPairs([][2]string{{"authid", aid}, {"authrole", str(arg(2))}})
 	case "wamp.subscription.on_create", "wamp.registration.on_create":
 		r.X = x.sessID(arg(0))
 		if det, ok := wamp.AsDict(arg(1)); ok && det != nil {
@@ -1255,7 +1466,7 @@ func (x *Exec) collect(in Input) ([][]SessOut, []Bind) {
 	for _, name := range x.order {
 		p := x.peers[name]
 		raw := p.take()
-		if len(raw) == 0 {
+		if len(raw) == 0 || p.deaf {
 			continue
 		}
 		x.realmCtx = x.realms[p.realm]
@@ -1263,6 +1474,12 @@ func (x *Exec) collect(in Input) ([][]SessOut, []Bind) {
 		so := SessOut{S: name}
 		for _, s := range raw {
 			m := x.abstract(p, s)
+			if p.silent && m.K == "ABORT" {
+				continue // whether a peer that never said anything is told ABORT is left open
+			}
+			if p.hs && m.K == "WELCOME" {
+				p.joined = true
+			}
 			so.M = append(so.M, m)
 			if x.poison && p.local {
 				poisonMsg(s.m)
@@ -1278,7 +1495,7 @@ func (x *Exec) collect(in Input) ([][]SessOut, []Bind) {
 			}
 			switch m.K {
 			case "WELCOME":
-				if name == in.S && in.Op == "join" {
+				if name == in.S && (in.Op == "join" || in.Op == "hello" || in.Op == "auth") {
 					b.Sid = m.A
 				}
 			case "SUBSCRIBED":
@@ -1573,8 +1790,22 @@ func (x *Exec) learnBaseline() {
 	x.baseRegs = map[wamp.ID]bool{}
 	cli, rtr := transport.LinkedPeers()
 	go func() { _ = x.rt.Attach(rtr) }()
-	cli.Send() <- &wamp.Hello{Realm: x.uri, Details: helloDetails(Join{Authid: "aux", Local: true})}
-	if _, ok := (<-cli.Recv()).(*wamp.Welcome); !ok {
+	hd := helloDetails(Join{Authid: "aux", Local: true})
+	ac := normCfg(x.cfg).Auth
+	if ac.Lauth && !ac.Anon && len(ac.Methods) > 0 && len(x.cfg.Users) > 0 {
+		// in-process peers must authenticate too in this realm
+		hd["authid"] = x.cfg.Users[0].ID
+		hd["authmethods"] = wamp.List{ac.Methods[0]}
+	}
+	cli.Send() <- &wamp.Hello{Realm: x.uri, Details: hd}
+	first := <-cli.Recv()
+	if ch, ok := first.(*wamp.Challenge); ok {
+		aux := &peer{name: "aux", chMethod: ch.AuthMethod}
+		aux.challenge, _ = wamp.AsString(ch.Extra["challenge"])
+		cli.Send() <- x.authMsg(aux, Input{Resp: AuthResp{Kind: "sig", Key: x.cfg.Users[0].ID}})
+		first = <-cli.Recv()
+	}
+	if _, ok := first.(*wamp.Welcome); !ok {
 		panic("harness: auxiliary session not welcomed")
 	}
 	cli.Send() <- &wamp.Call{Request: 1, Options: wamp.Dict{}, Procedure: wamp.MetaProcRegList}
